@@ -31,6 +31,12 @@ Accepted forms beyond the reference text (each with its equivalence argument):
     does not depend on the value the helper returns: the guarded block is itself effect-free, so neither
     branch changes the modelled state.  (What is NOT accepted: a helper containing any translatable or unknown
     statement -- those are inlined by the front-end or fail closed.)
+
+  * local aliases.  `x = self._reconnectionInfo` (an attribute assigned once, in __init__) and `x = self._delay`
+    followed by statements that neither assign self._delay nor call a method of the Reconnector are copy-propagated:
+    every later load of x in the same block is read as the attribute (the value cannot have changed in between).
+    In startConnecting, after the top-level statement `self._tub = tub`, the parameter `tub` and `self._tub` are the
+    same object: `tub._removeReconnector(self)` is read as `self._tub._removeReconnector(self)`.
 """
 import ast
 from fractions import Fraction
@@ -188,7 +194,11 @@ class M:
     def prim(self, st):
         txt = ast.unparse(st)
         if txt == "self._tub = tub":
+            if self.depth == 0 and self.f.name == "startConnecting":
+                self.tub_param_is_field = True
             return "(set_tub true)"
+        if txt == "tub._removeReconnector(self)" and self.tub_param_is_field:
+            return "remove_from_tub"
         if txt == "self._tub = None":
             return "(set_tub false)"
         if txt in ("self._active = True", "self._active = False"):
@@ -231,10 +241,48 @@ class M:
                 return "m_" + fn[5:]
         self.bail(st, "statement outside the translatable subset")
 
+    depth = 0
+    tub_param_is_field = False
+
+    def alias(self, st, rest):
+        """copy propagation of `x = self._reconnectionInfo` / `x = self._delay` (see the module docstring);
+        -> the rest of the block with x replaced, or None"""
+        if not (isinstance(st, ast.Assign) and len(st.targets) == 1 and isinstance(st.targets[0], ast.Name)):
+            return None
+        src = ast.unparse(st.value)
+        if src not in ("self._reconnectionInfo", "self._delay"):
+            return None
+        name = st.targets[0].id
+        if name in ("self", "ci", "log_it", "d", "cb", "args", "kwargs", "rref", "f", "tub"):
+            return None
+        mod = ast.Module(body=rest, type_ignores=[])
+        for x in ast.walk(mod):
+            if isinstance(x, ast.Name) and x.id == name and not isinstance(x.ctx, ast.Load):
+                return None                         # x is rebound later
+            if src == "self._delay":
+                if isinstance(x, (ast.Assign, ast.AugAssign)):
+                    for t in (x.targets if isinstance(x, ast.Assign) else [x.target]):
+                        if ast.unparse(t) == "self._delay":
+                            return None
+                if isinstance(x, ast.Call) and isinstance(x.func, ast.Attribute) and isinstance(x.func.value, ast.Name) \
+                        and x.func.value.id == "self":
+                    return None                     # a method of the Reconnector might assign _delay
+
+        class Sub(ast.NodeTransformer):
+            def visit_Name(s_, node):
+                if node.id == name and isinstance(node.ctx, ast.Load):
+                    return ast.copy_location(ast.parse(src, mode="eval").body, node)
+                return node
+        import copy
+        return [ast.fix_missing_locations(Sub().visit(copy.deepcopy(x))) for x in rest]
+
     def block(self, stmts):
         if not stmts:
             return "ret"
         st, rest = stmts[0], stmts[1:]
+        al = self.alias(st, rest)
+        if al is not None:
+            return self.block(al)
         if self.ignorable(st):
             return self.block(rest)
         if isinstance(st, ast.Return):
@@ -245,13 +293,142 @@ class M:
             c = self.test(st.test)
             ends = lambda b: bool(b) and isinstance(b[-1], ast.Return)
             if ends(st.body) and not st.orelse:
-                return "(cond %s %s\n   %s)" % (c, self.block(st.body), self.block(rest))
+                self.depth += 1
+                body = self.block(st.body)
+                self.depth -= 1
+                return "(cond %s %s\n   %s)" % (c, body, self.block(rest))
             for b in (st.body, st.orelse):
                 for x in ast.walk(ast.Module(body=b, type_ignores=[])):
                     if isinstance(x, ast.Return):
                         self.bail(st, "return inside a two-armed or non-final position")
-            return "(seq (cond %s %s %s)\n   %s)" % (c, self.block(st.body), self.block(st.orelse), self.block(rest))
+            self.depth += 1
+            b1, b2 = self.block(st.body), self.block(st.orelse)
+            self.depth -= 1
+            return "(seq (cond %s %s %s)\n   %s)" % (c, b1, b2, self.block(rest))
         return "(seq %s\n   %s)" % (self.prim(st), self.block(rest))
+
+
+TUB_NAMES = {"reconnectors", "rc", "startConnecting", "stopConnecting", "_removeReconnector", "Reconnector", "running"}
+FORBID = {"self.startService = self._tubsAreNotRestartable": "startService",
+          "self.getReference = self._tubHasBeenShutDown": "getReference",
+          "self.connectTo = self._tubHasBeenShutDown": "connectTo"}
+
+
+class TubM:
+    """one method of pb.Tub -> a Tub-level action (tact)"""
+
+    def __init__(self, name, fdef):
+        self.name = name
+        self.f = fdef
+        self.forbid = set()
+
+    def bail(self, node, why):
+        raise P.Untranslatable("Tub.%s line %s: %s: %s" % (self.name, getattr(node, "lineno", "?"), why, ast.unparse(node)[:120]))
+
+    def irrelevant(self, st):
+        """frame condition: a statement that mentions none of the names through which the Reconnectors are reached
+        (self.reconnectors, a variable rc, start/stopConnecting, _removeReconnector, the class, self.running) and
+        cannot leave the method (no return / raise / assert) neither changes the modelled Tub state nor the control
+        flow; what it calls is outside the model (Twisted's MultiService, brokers, connectors)."""
+        for x in ast.walk(st):
+            if isinstance(x, ast.Name) and x.id in TUB_NAMES:
+                return False
+            if isinstance(x, ast.Attribute) and x.attr in TUB_NAMES:
+                return False
+            if isinstance(x, (ast.Return, ast.Raise, ast.Assert, ast.Global, ast.Nonlocal)):
+                return False
+        return True
+
+    def test(self, t):
+        if isinstance(t, ast.UnaryOp) and isinstance(t.op, ast.Not):
+            return "(fun t => negb (%s t))" % self.test(t.operand)
+        if ast.unparse(t) == "self.running":
+            return "t_running"
+        self.bail(t, "guard")
+
+    def prim(self, st):
+        txt = ast.unparse(st)
+        if txt == "rc = Reconnector(_furl, _cb, args, kwargs)":
+            return "(t_new init_state)"
+        if txt == "rc.startConnecting(self)":
+            return "(t_call_rc m_tub__removeReconnector m_startConnecting)"
+        if txt == "rc.stopConnecting()":
+            return "(t_call_rc m_tub__removeReconnector m_stopConnecting)"
+        if txt == "eventual.eventually(rc.startConnecting, self)":
+            return "t_enqueue_start"
+        if txt == "self.reconnectors.append(rc)":
+            return "t_append"
+        if txt == "self.reconnectors.remove(rc)":
+            return "t_remove"
+        if txt == "del self.reconnectors":
+            return "t_del_list"
+        if txt == "service.MultiService.startService(self)":
+            return "t_set_running"
+        if txt == "assert self.running":
+            return "t_assert_running"
+        if txt in FORBID:
+            self.forbid.add(FORBID[txt])
+            return "t_forbid" if FORBID[txt] == "startService" else None
+        if isinstance(st, ast.Expr) and isinstance(st.value, ast.Call) and ast.unparse(st.value.func) in ("self.log", "log.msg"):
+            for a in list(st.value.args) + [k.value for k in st.value.keywords]:
+                for x in ast.walk(a):
+                    if isinstance(x, ast.Call):
+                        self.bail(st, "call inside a log message")
+            return None
+        if isinstance(st, ast.For) and not st.orelse and isinstance(st.target, ast.Name) and st.target.id == "rc":
+            it = ast.unparse(st.iter)
+            if it == "list(self.reconnectors)":
+                return "(t_for_copy %s)" % self.block(st.body, inner=True)
+            if it == "self.reconnectors":
+                return "(t_for_live %s)" % self.block(st.body, inner=True)
+            self.bail(st, "loop over")
+        self.bail(st, "statement outside the translatable subset")
+
+    def block(self, stmts, inner=False):
+        if not stmts:
+            return "tret"
+        st, rest = stmts[0], stmts[1:]
+        if isinstance(st, ast.Expr) and isinstance(st.value, ast.Constant) and isinstance(st.value.value, str):
+            return self.block(rest, inner)
+        if isinstance(st, ast.Pass):
+            return self.block(rest, inner)
+        if isinstance(st, ast.Return):
+            if inner or rest:
+                self.bail(st, "return that is not the last statement")
+            if self.name == "connectTo" and ast.unparse(st) != "return rc":
+                self.bail(st, "connectTo returns something else")
+            if self.name != "connectTo" and st.value is not None and not self.irrelevant(ast.Expr(value=st.value)):
+                self.bail(st, "return value")
+            return "tret"
+        if isinstance(st, ast.If) and not self.irrelevant(st):
+            c = self.test(st.test)
+            for b in (st.body, st.orelse):
+                for x in ast.walk(ast.Module(body=b, type_ignores=[])):
+                    if isinstance(x, ast.Return):
+                        self.bail(st, "return inside a branch")
+            return "(tseq (tcond %s %s %s)\n   %s)" % (c, self.block(st.body, True), self.block(st.orelse, True), self.block(rest, inner))
+        if self.name in ("startService", "stopService") and ast.unparse(st) not in FORBID \
+                and ast.unparse(st) != "service.MultiService.startService(self)" and self.irrelevant(st):
+            return self.block(rest, inner)
+        p = self.prim(st)
+        if p is None:
+            return self.block(rest, inner)
+        return "(tseq %s\n   %s)" % (p, self.block(rest, inner))
+
+    def method(self):
+        f = self.f
+        want = {"connectTo": None, "startService": ["self"], "stopService": ["self"], "_removeReconnector": ["self", "rc"]}[self.name]
+        if f.decorator_list:
+            self.bail(f, "decorated")
+        if want is not None and ([a.arg for a in f.args.args] != want or f.args.vararg or f.args.kwarg):
+            self.bail(f, "signature")
+        if self.name == "connectTo" and ([a.arg for a in f.args.args] != ["self", "_furl", "_cb"] or not f.args.vararg
+                                         or f.args.vararg.arg != "args" or not f.args.kwarg or f.args.kwarg.arg != "kwargs"):
+            self.bail(f, "signature")
+        body = self.block(f.body)
+        if self.name == "stopService" and self.forbid != {"startService", "getReference", "connectTo"}:
+            raise P.Untranslatable("Tub.stopService no longer forbids startService/getReference/connectTo: %s" % sorted(self.forbid))
+        return "(* Tub.%s, pb.py line %d *)\nDefinition m_tub_%s : tact :=\n  %s." % (self.name, f.lineno, self.name, body)
 
 
 def generate():
@@ -370,29 +547,48 @@ def generate():
     out.append("Definition init_state : st :=\n  let s := fst (m___init__ blank) in\n"
                "  mkSt (active s) (stopped s) (tub s) (delay s) (timer s) (inflight s) (watching s) (leaked s) init_info.")
 
-    # ---- how the Tub drives a Reconnector (pb.py): shape facts behind `permitted`
+    # ---- how the Tub drives its Reconnectors (pb.py): Tub.connectTo, the Reconnector parts of Tub.startService and
+    #      Tub.stopService, and Tub._removeReconnector are translated statement by statement into Tub-level actions
+    #      (vocabulary: second half of lib/ReconnectorBase.v).  Statements of startService/stopService that do not
+    #      mention the Reconnectors are dropped under a syntactic frame condition (see tub_irrelevant).
     pb = P.load("pb.py")
-    ct = ast.unparse(P.find_def(pb, "Tub.connectTo"))
-    for frag in ("rc = Reconnector(_furl, _cb, args, kwargs)", "if self.running:\n        rc.startConnecting(self)",
-                 "self.reconnectors.append(rc)", "return rc"):
-        if frag not in ct:
-            raise P.Untranslatable("Tub.connectTo no longer contains: " + frag)
-    if ct.count("startConnecting") != 1:
-        raise P.Untranslatable("Tub.connectTo calls startConnecting more than once")
     tubcls = P.find_class(pb, "Tub")
-    ss_ = [n for n in tubcls.body if isinstance(n, ast.FunctionDef) and n.name == "startService"]
-    if not ss_:
-        raise P.Untranslatable("Tub.startService not found")
-    ssrc = ast.unparse(ss_[-1])
-    if "for rc in self.reconnectors:\n        eventual.eventually(rc.startConnecting, self)" not in ssrc:
-        raise P.Untranslatable("Tub.startService no longer starts the queued reconnectors")
-    stop = [n for n in tubcls.body if isinstance(n, ast.FunctionDef) and n.name == "stopService"]
-    if not stop or "for rc in list(self.reconnectors):\n        rc.stopConnecting()" not in ast.unparse(stop[-1]) \
-            or "self.startService = self._tubsAreNotRestartable" not in ast.unparse(stop[-1]):
-        raise P.Untranslatable("Tub.stopService no longer stops the reconnectors / forbids restarting")
-    rm = ast.unparse(P.find_def(pb, "Tub._removeReconnector"))
-    if "self.reconnectors.remove(rc)" not in rm:
-        raise P.Untranslatable("Tub._removeReconnector changed")
+    tdefs = {}
+    for n in tubcls.body:
+        if isinstance(n, ast.FunctionDef):
+            tdefs.setdefault(n.name, []).append(n)
+    for nm in ("connectTo", "startService", "stopService", "_removeReconnector"):
+        if len(tdefs.get(nm, [])) != 1:
+            raise P.Untranslatable("Tub.%s not found exactly once" % nm)
+    out.append(TubM("_removeReconnector", tdefs["_removeReconnector"][0]).method())
+    out.append(TubM("connectTo", tdefs["connectTo"][0]).method())
+    out.append(TubM("startService", tdefs["startService"][0]).method())
+    out.append(TubM("stopService", tdefs["stopService"][0]).method())
+    # frame condition on the rest of pb.py: self.reconnectors is touched only by these four methods and by the
+    # initialisation `self.reconnectors = []`; startConnecting/stopConnecting are called only from them
+    allowed = set()
+    for nm in ("connectTo", "startService", "stopService", "_removeReconnector"):
+        for x in ast.walk(tdefs[nm][0]):
+            allowed.add(id(x))
+    inits = 0
+    for x in ast.walk(pb):
+        if isinstance(x, ast.Assign) and len(x.targets) == 1 and ast.unparse(x.targets[0]) == "self.reconnectors":
+            if ast.unparse(x.value) != "[]":
+                raise P.Untranslatable("self.reconnectors initialised to " + ast.unparse(x.value))
+            inits += 1
+            for y in ast.walk(x):
+                allowed.add(id(y))
+    if inits != 1:
+        raise P.Untranslatable("self.reconnectors is initialised %d times" % inits)
+    for x in ast.walk(pb):
+        if isinstance(x, ast.Attribute) and x.attr in ("reconnectors", "startConnecting", "stopConnecting", "_removeReconnector") \
+                and id(x) not in allowed:
+            raise P.Untranslatable("pb.py line %d mentions %s outside connectTo/startService/stopService/_removeReconnector"
+                                   % (x.lineno, x.attr))
+    for frag, whom in (("_tubsAreNotRestartable", "startService"), ("_tubHasBeenShutDown", "connectTo")):
+        f = P.find_def(pb, "Tub." + frag)
+        if not (len(f.body) == 1 and isinstance(f.body[0], ast.Raise)):
+            raise P.Untranslatable("Tub.%s no longer just raises" % frag)
     n_start = sum(1 for x in ast.walk(pb) if isinstance(x, ast.Attribute) and x.attr == "startConnecting")
     out.append("(* pb.py mentions startConnecting %d times: once in connectTo (running Tub), once in startService (queued) *)\n"
                "Definition tub_start_sites : nat := %d." % (n_start, n_start))
